@@ -1,15 +1,19 @@
 /-!
 # Model of the template store and the registries of an `Environment`  (C15)
 
-Mirrors `minijinja/src/loader.rs` (`LoaderStore::{insert_cow, remove, clear, get, set_loader, iter}`)
-and the registry part of `minijinja/src/environment.rs` (`Arc<BTreeMap>` + `Arc::make_mut`,
-`#[derive(Clone)]`).
+Mirrors `minijinja/src/loader.rs` (`LoaderStore::{insert_cow, remove, clear, get, set_loader, iter}`,
+`template_config`), the setters, the registry part and `#[derive(Clone)]` of
+`minijinja/src/environment.rs` (`Arc<BTreeMap>` + `Arc::make_mut`), and the state identity of
+`vm/state.rs`.
 
-* names and sources are opaque identifiers (`Nat`);
-* compiling a source is a *parameter* `compiles : Source → Bool` (`CompiledTemplate::new`
-  succeeds or returns a syntax error; nothing else of the compiler matters for the store);
-* a loader is a function `Name → LoadRes` (`Ok(None)`, `Ok(Some(source))`, `Err(_)`); it is a
-  pure function: the closure the harness installs has no state of its own;
+* names and sources are opaque identifiers (`Nat`); names are compared as they are (no
+  normalisation: `"./a"`, `"A"`, `" a"` are other names than `"a"`);
+* compiling a source is a *parameter* `compiles : LtCfg → Source → Bool` (`CompiledTemplate::new`
+  succeeds or returns a syntax error — which may depend on the configured syntax; nothing else of
+  the compiler matters for the store); a compiled template is identified with the pair (source,
+  load-time configuration it was compiled under), under the name it is stored at;
+* a loader is a function `Name → LoadRes` (`Ok(None)`, `Ok(Some(source))`, `Err(_)`); a closure
+  whose answers change with the outside world is modelled as the replacement of that function;
 * `BTreeMap`/`MemoMap` are association lists with `find`/`ins` (insert-or-replace)/`del`; only
   these operations are used by the Rust code (`MemoMap::get_or_try_insert` = `find`, else create
   and `ins`, nothing is inserted when the creator fails);
